@@ -190,7 +190,10 @@ func (e *env) sendH2(rs reqShape, host string, trailer [][2]string) (uint32, boo
 	for _, l := range rs.hs.lines {
 		fs = append(fs, h2wire.HF{Name: strings.ToLower(l[0]), Value: l[1]})
 	}
-	if rs.framing != "nocl" && (len(rs.body) > 0 || rs.method == "POST" || rs.method == "PUT") {
+	// no content-length when frames follow the last body byte (empty END_STREAM DATA, trailers): with a declared length the
+	// exchange can complete before those frames are processed, and the server may then answer them with an error - a race
+	// between the handler goroutine and the serve loop that the harness does not control
+	if rs.framing != "nocl" && rs.framing != "emptyend" && rs.framing != "trailers" && (len(rs.body) > 0 || rs.method == "POST" || rs.method == "PUT") {
 		fs = append(fs, h2wire.HF{Name: "content-length", Value: fmt.Sprint(len(rs.body))})
 	}
 	if rs.framing == "trailers" {
